@@ -729,6 +729,26 @@ func stagePutFault(sink *hx.Sink) {
 			}
 			jobs <- job{tree: t.tree, reqs: reqs}
 		}
+		// someone else changes the target or its parent while the body of a (conditional) PUT is
+		// being read: whatever the answer, a failure must leave the tree as the other party left it
+		for _, t := range targets {
+			if t.name == "dir" || t.name == "noparent" || t.name == "underfile" {
+				continue
+			}
+			var reqs []davx.Req
+			for _, race := range []string{"filetarget", "mkdirtarget", "mkdirfull", "rmparent", "parentfile"} {
+				for _, cond := range [][2]string{{"", ""}, {"", "*"}, {"*", ""}, {`"nope"`, ""}, {"", `"nope"`}} {
+					for _, sz := range []int{0, 7, 40000} {
+						r := davx.NewReq("PUT", t.path)
+						r.Body = strings.Repeat("R", sz)
+						r.Race = race
+						r.IfMatch, r.IfNoneMatch = cond[0], cond[1]
+						reqs = append(reqs, r)
+					}
+				}
+			}
+			jobs <- job{tree: t.tree, reqs: reqs, fresh: true}
+		}
 		for _, t := range planted {
 			var reqs []davx.Req
 			for _, sz := range []int{0, 5, 40000} {
